@@ -26,17 +26,18 @@ def lemmas():
 EXPECTED_CLAUSES = ["_add_dir_watch.post[recursive: every directory found under the root is watched", "_add_dir_watch.post[non-recursive: only the root is watched]", "_add_watch.post[path -> descriptor recorded",
                     "read_events.record[IN_CREATE of a directory under a recursive watch", "read_events.record[second half of the rename of a watched directory", "read_events.record[IN_IGNORED",
                     "read_events.loop6.preserved[every visited key below the old path is re-keyed by prefix substitution", "read_events.loop6.preserved[keys outside both trees are untouched]",
-                    "read_events.record[watches are added only by a recursive instance", "read_events.loop5.preserved[move records of earlier batches are kept", "lemma[replace(a, b, 1) on a string with prefix a is prefix substitution]"]
+                    "read_events.record[watches are added only by a recursive instance", "read_events.loop5.preserved[move records of earlier batches are kept", "read_events.record[a directory that arrives without a known watched source", "_add_dir_watch.raises[path entries only accumulate]", "read_events.record[the event handed on carries the record's fields and the current path", "lemma[replace(a, b, 1) on a string with prefix a is prefix substitution]"]
 CANARIES = [
+    {"name": "an arriving directory without a known source is not watched (the repaired defect)", "file": FILE, "fn": "Inotify.read_events", "find": "                    elif self.is_recursive and inotify_event.is_directory:\n", "replace": "                    elif False:\n"},
     {"name": "forget the move records at the start of every batch", "file": FILE, "fn": "Inotify.read_events", "find": "            event_list = []\n", "replace": "            event_list = []\n            self._moved_from_events = {}\n"},
     {"name": "drop `if recursive:` in _add_dir_watch", "file": FILE, "fn": "Inotify._add_dir_watch", "find": "        if recursive:\n", "replace": "        if True:\n"},
     {"name": "re-key with an unbounded replace (the repaired defect)", "file": FILE, "fn": "Inotify.read_events", "find": "_path.replace(move_src_path, inotify_event.src_path, 1)", "replace": "_path.replace(move_src_path, inotify_event.src_path)"},
     {"name": "re-key only _wd_for_path (forget _path_for_wd)", "file": FILE, "fn": "Inotify.read_events", "find": "                                    self._path_for_wd[moved_wd] = _move_to_path\n", "replace": ""},
     {"name": "drop the `+ sep` in the startswith guard", "file": FILE, "fn": "Inotify.read_events", "find": "_path.startswith(move_src_path + os.path.sep.encode())", "replace": "_path.startswith(move_src_path)"},
 ]
-TRUSTED = ["E8 kernel: each record carries one event bit (+IN_ISDIR) and refers to a live descriptor or -1; IN_IGNORED is the last record of its descriptor; the halves of a rename share a cookie; rename(2) never moves a directory into its own subtree",
+TRUSTED = ["E8 kernel: each record carries one event bit (+IN_ISDIR) and refers to a live descriptor or -1; records about a child (create/delete/moved_from/moved_to) carry its non-empty name; IN_IGNORED is the last record of its descriptor; the halves of a rename share a cookie; rename(2) never moves a directory into its own subtree",
            "E1 os.walk lists the directories under the root", "path strings: startswith/replace facts are lemmas proved over SMT-LIB strings (string_lemmas), then used as axioms on the uninterpreted path sort",
            "C20: _parse_event_buffer yields the records of the buffer"]
 ASSUMPTIONS = ["the maps are NOT assumed mutually inverse (inotify_add_watch may return a descriptor already in use)"]
 UNDECIDED_PARTS = ["the event view equals the real tree at quiescence (kernel + pacing condition): not decided (C01)",
-                   "known findings: a directory moved in from outside, or created and renamed before the reader drained, is never watched (the TODO in read_events)"]
+                   "histories that re-use a directory's name, or touch its contents, before the reader drained the operation that created/renamed/removed it (outside the pacing condition) can alias descriptors and paths; not claimed"]
